@@ -96,6 +96,30 @@ def corr_quote(chk, n):
             raise InfraError(f"specification pctDecode disagrees with urllib.unquote_to_bytes on {w}: {m['spec']} vs {impl}")
 
 
+def corr_utf8(chk, n):
+    rng, drv = chk.rng, chk.driver()
+    texts = [gen_text(rng, 5) for _ in range(n)] + ["\x7f\x80\u07ff\u0800\uffff\U00010000\U0010ffff", "\ud7ff\ue000"]
+    outs = drv.batch([("utf8", {"s": t}) for t in texts])
+    for t, m in zip(texts, outs):
+        model_err(m, t)
+        impl = list(t.encode("utf-8"))
+        chk.case("str.encode(utf-8)", key=t, nontrivial=any(ord(c) > 127 for c in t), sample={"text": t, "impl": impl})
+        if impl != m["bytes"]:
+            chk.disagreement("str.encode(utf-8)", t, m["bytes"], impl)
+        if m["back"] != t:
+            raise InfraError(f"utf8Decode(utf8 s) != s for {t!r}")
+    wires = [gen_bytes(rng, 5) for _ in range(n)]
+    outs = drv.batch([("utf8_decode", {"bs": w}) for w in wires])
+    for w, m in zip(wires, outs):
+        try:
+            oracle = bytes(w).decode("utf-8")
+        except UnicodeDecodeError:
+            oracle = None
+        chk.case("utf8Decode(spec) vs bytes.decode", key=w, nontrivial=oracle is not None)
+        if m != oracle:
+            raise InfraError(f"specification utf8Decode disagrees with CPython on {w}: {m!r} vs {oracle!r}")
+
+
 # ---- mechanism: quote_all ------------------------------------------------------------------------------------------
 
 def detect_variant_quote_all() -> str:
@@ -1124,36 +1148,141 @@ def replay_transports(chk, n, loopback: bool):
 
 
 def run(chk):
+    import time
+
+    t0 = [time.time()]
+
+    def lap(name):
+        now = time.time()
+        chk.notes.append(f"phase {name}: {now - t0[0]:.1f}s")
+        t0[0] = now
+
     v_quote = detect_variant_quote_all()
-    chk.variants["quote_all"] = v_quote
-    chk.proved += ["pct_roundtrip"]
+    vt, vm, vs, vj = detect_variant_defaults(), detect_variant_matrix(), detect_variant_itemstr(), detect_variant_jsonify()
+    chk.variants.update({"quote_all": v_quote, "style_defaults": vt, "matrix_name": vm, "str(item)": vs, "jsonify": vj})
+    variants = (v_quote, vt, vm, vs, vj)
     corr_quote(chk, chk.budget(400, 4000))
     corr_quote_all(chk, chk.budget(600, 6000), v_quote)
-    vt, vm, vs, vj = detect_variant_defaults(), detect_variant_matrix(), detect_variant_itemstr(), detect_variant_jsonify()
-    chk.variants.update({"style_defaults": vt, "matrix_name": vm, "str(item)": vs, "jsonify": vj})
+    corr_utf8(chk, chk.budget(300, 3000))
+    lap("quote")
     corr_serialize3(chk, chk.budget(2500, 30000), vt, vm, vs)
     corr_serialize2(chk, chk.budget(600, 6000), vs)
     corr_jsonify_stringify(chk, chk.budget(600, 6000), vj)
-    e2e_styles(chk, (v_quote, vt, vm, vs, vj), chk.budget(1500, 20000))
-    e2e_styles(chk, (v_quote, vt, vm, vs, vj), chk.budget(300, 5000), front="template")
-    e2e_swagger2(chk, (v_quote, vt, vm, vs, vj), chk.budget(300, 4000))
+    lap("serializers")
+    e2e_styles(chk, variants, chk.budget(1500, 20000))
+    lap("e2e-strategy")
+    e2e_styles(chk, variants, chk.budget(300, 5000), front="template")
+    lap("e2e-template")
+    e2e_swagger2(chk, variants, chk.budget(300, 4000))
     corr_url(chk, chk.budget(1200, 15000), v_quote)
+    lap("swagger2+url")
     corr_headers(chk, chk.budget(500, 5000))
     replay_bodies(chk, chk.budget(300, 3000))
-    corr_template(chk, chk.budget(1500, 15000), (v_quote, vt, vm, vs, vj))
+    corr_template(chk, chk.budget(1500, 15000), variants)
     corr_empty_dicts(chk, chk.budget(200, 2000))
+    lap("headers+bodies+template")
     replay_transports(chk, chk.budget(150, 2000), loopback=chk.thorough)
+    lap("transports")
+    fill_evidence(chk)
     chk.exhaustive = False
 
 
+def fill_evidence(chk):
+    chk.proved += [
+        "pct_roundtrip: strict RFC 3986 decoding of quote(bs, safe) = bs for all byte strings and every safe set without '%'",
+        "utf8_roundtrip / path_text_roundtrip: the same for all Unicode scalar strings through UTF-8",
+        "path_roundtrip_repaired (full, quote(value, safe='')), path_asFound_exact (as found: spaces arrive as '+', nothing "
+        "else changes), path_roundtrip_full_false (witness 'a b'), path_roundtrip_partial (as found, values without a space)",
+        "path_value_is_clean_segment: every quoted value is one segment: no '/', never '.'/'..', never empty",
+        "url_join / url_join_trailing_slash / wire_path: prepare_url = base segments ++ template segments, each read back "
+        "as the literal / the generated value, for all clean base paths and templates",
+        "style_roundtrip (general), style_roundtrip_repaired (full), style_roundtrip_full_false (matrix witness), "
+        "style_roundtrip_partial (as found): reference decoder of the declared style o serializer = string coercion, all "
+        "single-string cells of the location x style x explode x type table, all names and values, under the explicit "
+        "no-delimiter hypothesis Decodable",
+        "delimiter_inside_item_lost, empty_array_ambiguous, python_repr_inside_array, label_zero_lost, "
+        "path_default_style_not_serialized, absent_explode_object_not_serialized: the hypotheses are necessary / the "
+        "known-bad cells really are bad (kernel-checked witnesses)",
+        "headers_only_expected, generated_header_sent, content_type_is_media_type (+ wsgi_overwrites_generated_content_type witness)",
+    ]
+    chk.partial += [
+        "values: primitives (str, int, bool, null) and arrays / objects of primitives; floats and deeper nesting reach Python's "
+        "repr / json.dumps and are outside the model (the model answers 'undefined', the replay still judges the wire)",
+        "cells whose value is spread over several entries (exploded form arrays / objects, deepObject, exploded cookies) and "
+        "`content: application/json` parameters have no single-string theorem: judged on the wire only (reference decoders "
+        "decodeDeepObject / decodeFormExplodedArray, json.loads)",
+        "urljoin is modelled for http(s) base URLs without query / fragment / params and relative references that are plain "
+        "paths (which quote() guarantees); the origin (scheme://host:port) is passed through unmodelled",
+        "str.format is modelled for templates made of literal text and {name} fields only",
+    ]
+    chk.sampled_only += [
+        "requests' PreparedRequest (requote_uri, params / cookie / header encoding), werkzeug's EnvironBuilder and the ASGI test "
+        "client are third-party: their output is decoded and compared on every generated case, not modelled",
+        "JSON / form / text bodies round-trip and Content-Type = media type: checked on the prepared request (json.loads, "
+        "parse_qsl) for sampled bodies; multipart, XML, YAML and binary bodies are not examined",
+        "WSGI and ASGI transports deliver the same path, query, headers, cookies and body as the prepared requests.Request "
+        "(in-process recording apps on every run; a real loopback HTTP server in the thorough tier)",
+        "cookie values are drawn without ';' (a ';' inside a cookie value splits the cookie: same unescaped-join loss as F13)",
+    ]
+    chk.assumptions += [
+        "a standards-conforming server percent-decodes each path segment / query component first and then applies the "
+        "style decoder of the declared parameter (decode-then-split; the code percent-encodes the delimiters themselves)",
+        "label arrays with explode=false use ',' (RFC 6570 {.list}, OpenAPI 3.0.4 / 3.1), as the code and its tests do",
+        "requests / urllib3 send PreparedRequest.url, headers and body unchanged (checked against a loopback server in the "
+        "thorough tier)",
+    ]
+    chk.trusted += [
+        "lean/SV/Spec/C06*.lean: our reading of RFC 3986 (percent-encoding, path segments), RFC 3629, RFC 6265 cookie-string, the "
+        "OpenAPI 3.0 style table; pctDecode and utf8Decode are differentially checked against urllib / CPython on every run",
+        "harness/gens/c06_pipeline.py: drives the real get_parameters_strategy glue through a constant strategy "
+        "(hypothesis.internal ConjectureData.for_choices + BuildContext)",
+    ]
+
+
 def replay(chk, data):
+    """re-run one recorded input on the implementation and on the model / specification"""
     print(data.get("what"))
     r = data["replay"]
-    print("recorded:", r)
-    if r.get("mechanism") == "quote_all":
+    print("recorded:", _json.dumps(r, ensure_ascii=False, default=str)[:2000])
+    drv = chk.driver()
+    variants = (detect_variant_quote_all(), detect_variant_defaults(), detect_variant_matrix(), detect_variant_itemstr(),
+                detect_variant_jsonify())
+    vq, vt, vm, vs, vj = variants
+    print("variants now:", dict(zip(("quote_all", "style_defaults", "matrix_name", "str(item)", "jsonify"), variants)))
+    mech = r.get("mechanism") or r.get("correspondence")
+    if mech == "quote_all":
         v = r["value"]
-        impl = quote_all({"k": v})["k"]
-        print("impl now:", repr(impl))
+        print("impl now:", repr(quote_all({"k": v})["k"]))
         for variant in ("asFound", "repaired"):
-            print(f"model[{variant}]:", chk.driver().one("quote_all", {"variant": variant, "val": pval_wire(v)}))
+            print(f"model[{variant}]:", drv.one("quote_all", {"variant": variant, "val": pval_wire(v)}))
+    elif mech == "e2e":
+        cell, name, v = r["cell"], r["name"], r["value"]
+        template = f"/u/{{{name}}}/x" if cell["loc"] == "path" else "/u"
+        d = raw_def(name, cell["loc"], cell["ty"], cell["style"], cell["explode"])
+        if cell["loc"] == "path":
+            d["required"] = True
+        pl = Pipeline([d], template, "http://127.0.0.1:8080/api")
+        try:
+            case = pl.case({cell["loc"]: {name: copy.deepcopy(v)}})
+            prep = pl.prepared(case)
+            print("impl now: url =", prep.url, "headers =", dict(prep.headers))
+        except Rejected:
+            print("impl now: rejected by the is_valid_* filter")
+        print("model/spec:", drv.one("cell", {"vt": vt, "vm": vm, "vs": vs, "cell": cell, "name": name, "val": enc_val(v)}))
+    elif mech == "url":
+        t, params, base = r["template"], r["params"], r["base"]
+        names = [S(p[1]) for p in template_pieces(t) if p[0] == "var"]
+        pl = Pipeline([{"name": nm, "in": "path", "required": True, "schema": {"type": "string"}} for nm in names], t, base)
+        quoted = quote_all(jsonify_python_specific_types(dict(params)))
+        formatted = prepare_path(t, quoted)
+        print("impl now:", prepare_url(pl.operation.Case(path_parameters=quoted), base))
+        print("model:", S(drv.one("prepare_url", {"bpath": B(urlsplit(base).path), "path": B(formatted)})))
+    elif mech == "headers":
+        a = {k: r[k] for k in ("t", "caseH", "cfg", "ua", "tcid", "mediaType", "multipart", "bodySet", "extra")}
+        print("model:", drv.one("headers", a))
+        print("(impl: re-run ./check C06 — the case id is random)")
+    elif "input" in r:
+        print("model (recorded):", r.get("model"))
+        print("impl  (recorded):", r.get("impl"))
+        print("re-run ./check C06 with VERIF_SEED=%s to reproduce the correspondence run" % data.get("seed"))
     return 0
